@@ -10,6 +10,7 @@ import (
 	"testing"
 
 	"github.com/tobgu/qframe"
+	"github.com/tobgu/qframe/config/newqf"
 
 	"verifharness/hx"
 )
@@ -195,4 +196,70 @@ func TestC09Big(t *testing.T) {
 		}
 	}
 	evC09.CaseHash(true, seed, func() string { return fmt.Sprintf("volume case: ToCSV/ToJSON of %d rows incl. a cell of 1.5 MiB", n) }, "multi-MiB-output")
+}
+
+// TestC17Big: Sort on an enum key of a frame in which one value (or null) occupies more rows than a 16-bit counter
+// can count; the declared order must hold and no row may be lost.
+func TestC17Big(t *testing.T) {
+	seed, _ := strconv.ParseUint(os.Getenv("VERIF_SHARD_SEED"), 10, 64)
+	rng := hx.SplitMix(seed ^ 0x17b16)
+	n := 70000 + rng.Intn(3000)
+	decl := []string{"mid", "low", "zz", "high"}
+	heavy := rng.Intn(5) // index into decl, 4 = null
+	e := make([]*string, n)
+	for r := range e {
+		k := heavy
+		if rng.Intn(20) == 0 {
+			k = rng.Intn(5)
+		}
+		if k < 4 {
+			e[r] = hx.Sp(decl[k])
+		}
+	}
+	qf := qframe.New(map[string]interface{}{"e": e, "id": hx.Iota(n)}, newqf.Enums(map[string][]string{"e": decl}))
+	if qf.Err != nil {
+		t.Fatal(qf.Err)
+	}
+	rank := map[string]int{"mid": 0, "low": 1, "zz": 2, "high": 3}
+	for _, o := range []qframe.Order{{Column: "e"}, {Column: "e", Reverse: true}, {Column: "e", NullLast: true}} {
+		res := qf.Sort(o)
+		if res.Err != nil || res.Len() != n {
+			t.Fatalf("Sort(%+v) of %d rows: err %v, %d rows", o, n, res.Err, res.Len())
+		}
+		ev := res.MustEnumView("e")
+		ids := res.MustIntView("id").Slice()
+		seen := make([]bool, n)
+		key := func(p *string) int {
+			if p == nil {
+				if o.NullLast != o.Reverse {
+					return 100
+				}
+				return -1
+			}
+			if o.Reverse {
+				return -rank[*p] + 50
+			}
+			return rank[*p]
+		}
+		prev := -1000
+		for r := 0; r < n; r++ {
+			p := ev.ItemAt(r)
+			id := ids[r]
+			if id < 0 || id >= n || seen[id] {
+				t.Fatalf("Sort(%+v) of %d rows (one value on most of them): row id %d twice or out of range at position %d", o, n, id, r)
+			}
+			seen[id] = true
+			if (p == nil) != (e[id] == nil) || (p != nil && *p != *e[id]) {
+				t.Fatalf("Sort(%+v): row id %d carries another value than before", o, id)
+			}
+			if k := key(p); k < prev {
+				t.Fatalf("Sort(%+v) of %d rows: position %d is out of the declared order", o, n, r)
+			} else {
+				prev = k
+			}
+		}
+	}
+	evC17.CaseHash(true, seed, func() string {
+		return fmt.Sprintf("volume case: Sort on a declared enum key of %d rows, %d%% of them one value", n, 95)
+	}, "more-than-65535-rows-per-value")
 }
